@@ -633,9 +633,9 @@ theorem race_oracle_accepts_model (sched : List CallRace.Step) (i : Nat) (r : Ca
     judge (some r) gone polls i (handledAs (run init sched) i) = [] :=
   judge_resolved (inv_run sched inv_init) i r hr gone polls
 
--- non-vacuity: the push lands after `Stopped` but before the receiver is dropped — the message
+-- non-vacuity: the push lands after `Stopping` was published but before the receiver is dropped — the message
 -- is flushed, the caller gets `SenderError`; and a second caller whose CAS fails once retries
-example : ((run init [.c 0, .c 0, .c 0, .c 0, .c 0, .setStopping, .setStopped, .c 0, .c 0, .dropRx, .c 0]).pcs 0)
+example : ((run init [.c 0, .c 0, .c 0, .c 0, .c 0, .setStopping, .c 0, .c 0, .dropRx, .setStopped, .c 0]).pcs 0)
     = .done .senderError := by decide
 example : ((run init [.c 0, .c 0, .c 0, .c 1, .c 1, .c 1, .c 0, .c 1, .c 1]).pcs 1, (run init
     [.c 0, .c 0, .c 0, .c 1, .c 1, .c 1, .c 0, .c 1, .c 1]).count) = (.box, 2) := by decide
